@@ -72,13 +72,13 @@ theorem content_block_scoped (b : Block) (ctx : Scope) (st : St) (hok : ScopeOk 
 
 theorem execConds_scoped : ∀ (cs : CondList) (ctx : Scope) (st : St),
     Good (fun _ => False) ctx st (execConds g esc call cs ctx st)
-  | .nil, ctx, st => by rw [execConds]; exact Good.leaf (by simp) (Ext.refl _ _)
+  | .nil, ctx, st => by rw [execConds]; exact Good.leaf (by simp) (Ext.of_heap_eq rfl rfl)
   | .cons _ none body _, ctx, st => by
     rw [execConds]; exact walkBlockOf_good' (execBody_good g esc call hcall body) ctx st
   | .cons _ (some c) body rest, ctx, st => by
     rw [execConds]
     split
-    · exact Good.leaf (by simp) (Ext.refl _ _)
+    · exact Good.leaf (by simp) (Ext.of_heap_eq rfl rfl)
     · rename_i v st1 he
       have e1 := evalIn_ext (fun _ => False) he
       split
@@ -87,11 +87,11 @@ theorem execConds_scoped : ∀ (cs : CondList) (ctx : Scope) (st : St),
 
 theorem execCases_scoped : ∀ (cs : CaseList) (sv : Value) (ctx : Scope) (st : St),
     Good (fun _ => False) ctx st (execCases g esc call cs sv ctx st)
-  | .nil, _, ctx, st => by rw [execCases]; exact Good.leaf (by simp) (Ext.refl _ _)
+  | .nil, _, ctx, st => by rw [execCases]; exact Good.leaf (by simp) (Ext.of_heap_eq rfl rfl)
   | .cons _ values body rest, sv, ctx, st => by
     rw [execCases]
     split
-    · exact Good.leaf (by simp) (Ext.refl _ _)
+    · exact Good.leaf (by simp) (Ext.of_heap_eq rfl rfl)
     · rename_i st1 hm
       exact Good.after (matchCase_ext _ _ _ _ _ hm) (walkBlockOf_good' (execBody_good g esc call hcall body) ctx st1)
     · rename_i st1 hm
@@ -111,13 +111,15 @@ theorem block_cmd_scoped (c : Cmd) (hnl : ∀ p n e, c ≠ .letValue p n e) (hnc
     refine ⟨h.np, h.ctx_eq, ?_⟩
     -- a print only evaluates and writes
     unfold evalPrint
+    refine (Ext.atNode (fun _ => False) st (Expr.pos arg)).trans ?_ (fun _ _ h => h)
+    unfold evalPrintAt
     split
-    · exact Ext.refl _ _
+    · exact Ext.of_heap_eq rfl rfl
     · rename_i st1 he; exact evalIn_ext _ he
     · rename_i v st1 _ he
       have e1 := evalIn_ext (fun _ => False) he
       split
-      · exact e1
+      · exact e1.trans (Ext.atNode _ _ _) (fun _ _ h => h)
       · rename_i r esc' st2 hd
         have e2 := e1.trans (runDirectives_ext (fun _ => False) _ _ _ _ _ _ _ hd) (fun _ _ h => h)
         split
@@ -142,12 +144,12 @@ theorem block_cmd_scoped (c : Cmd) (hnl : ∀ p n e, c ≠ .letValue p n e) (hnc
     | some e =>
       rw [execCmd]
       split
-      · exact Good.leaf (by simp) (Ext.refl _ _)
+      · exact Good.leaf (by simp) (Ext.of_heap_eq rfl rfl)
       · rename_i v st1 he
         split
         · exact Good.leaf (by simp) (evalIn_ext _ he)
         · exact Good.leaf (by simp) ((evalIn_ext _ he).trans (write_ext _ _ _) (fun _ _ h => h))
-  | debugger _ => rw [execCmd]; exact Good.leaf (by simp) (Ext.refl _ _)
+  | debugger _ => rw [execCmd]; exact Good.leaf (by simp) (Ext.of_heap_eq rfl rfl)
   | log _ body =>
     rw [execCmd]
     have h := (renderBlockOf_good' (execBody_good g esc call hcall body) ctx st).1
@@ -165,20 +167,20 @@ theorem block_cmd_scoped (c : Cmd) (hnl : ∀ p n e, c ≠ .letValue p n e) (hnc
         · exact Good.leaf (by simp) e1
       · exact Good.after e1 (forLoop_good (execBody_good g esc call hcall body) var _ xs 0 ctx st1)
     · rename_i st1 he; exact Good.leaf (by simp) (evalIn_ext _ he)
-    · exact Good.leaf (by simp) (Ext.refl _ _)
+    · exact Good.leaf (by simp) (Ext.of_heap_eq rfl rfl)
   | switch _ value cases =>
     rw [execCmd]
     split
-    · exact Good.leaf (by simp) (Ext.refl _ _)
+    · exact Good.leaf (by simp) (Ext.of_heap_eq rfl rfl)
     · rename_i sv st1 he
       exact Good.after (evalIn_ext _ he) (execCases_scoped g esc call hcall cases sv ctx st1)
   | call _ name allData data params =>
     rw [execCmd]
     split
-    · exact Good.leaf (by simp) (Ext.refl _ _)
+    · exact Good.leaf (by simp) (Ext.of_heap_eq rfl rfl)
     · rename_i callee _
       split
-      · exact Good.leaf (by simp) (Ext.refl _ _)
+      · exact Good.leaf (by simp) (Ext.of_heap_eq rfl rfl)
       · rename_i cd st1 hcd
         obtain ⟨e1, owncd, hfresh⟩ := callData_spec hcd
         have hp := execParams_good g esc call hcall params cd ctx st1 owncd
@@ -193,17 +195,17 @@ theorem block_cmd_scoped (c : Cmd) (hnl : ∀ p n e, c ≠ .letValue p n e) (hnc
           have hc := hcall callee cctx s2 ownc
           refine ⟨hc.np, fun _ => hp.ctx_eq hok, ?_⟩
           have e4 : Ext (fun _ => False) st s2 := e2.trans (e3 (fun _ => False)) (fun _ _ h => h)
-          exact e4.trans hc.ext (fun i hi hw => by
+          exact (e4.trans hc.ext (fun i hi hw => by
             have := e2.len
-            rw [htopc] at hw; omega)
+            rw [htopc] at hw; omega)).trans (Ext.atNode (fun _ => False) _ _) (fun _ _ h => h)
         · rename_i hnok
           exact ⟨hp.np, fun e => absurd e (by intro h; exact hnok h), e2⟩
   | letValue p n e => exact absurd rfl (hnl p n e)
   | letContent p n b => exact absurd rfl (hnc p n b)
-  | headerParam _ _ _ _ _ _ => rw [execCmd]; exact Good.leaf (by simp) (Ext.refl _ _)
-  | «namespace» _ _ _ => rw [execCmd]; exact Good.leaf (by simp) (Ext.refl _ _)
-  | template _ _ _ _ _ => rw [execCmd]; exact Good.leaf (by simp) (Ext.refl _ _)
-  | soyDoc _ _ => rw [execCmd]; exact Good.leaf (by simp) (Ext.refl _ _)
+  | headerParam _ _ _ _ _ _ => rw [execCmd]; exact Good.leaf (by simp) (Ext.of_heap_eq rfl rfl)
+  | «namespace» _ _ _ => rw [execCmd]; exact Good.leaf (by simp) (Ext.of_heap_eq rfl rfl)
+  | template _ _ _ _ _ => rw [execCmd]; exact Good.leaf (by simp) (Ext.of_heap_eq rfl rfl)
+  | soyDoc _ _ => rw [execCmd]; exact Good.leaf (by simp) (Ext.of_heap_eq rfl rfl)
 
 /-- a loop variable (and `index` / `isFirst` / `isLast`'s helpers) is visible in the loop body only -/
 theorem loop_var_scoped (p : Nat) (var : Bytes) (list : Expr) (body : Block) (ifEmpty : Option Block)
